@@ -185,6 +185,10 @@ func checkC04(c *Ctx) {
 	// ---- C04.13 "reaches the covert destination exactly once and in order, and the covert's reply reaches the client
 	// likewise": the two directions of a tunnel relay through memory of their own (shared with C05.11)
 	checkPrivateRelayBuffer(c, "C04.13")
+	// ---- C04.16 "marks the registration as used": the store goes into the record that lives in the table (a record
+	// reached through the pointer the table holds), not into a copy of it (shared with C08.4)
+	r.Rule("C04.16", "activation writes the record held by the timeout table", 1)
+	checkMarkOwnRecord(c, "C04.16")
 	// ---- C04.15 "marks the registration as used" ... for every connection of a registered client: what a transport decides
 	// about one connection does not depend on earlier connections - WrapConnection and the helpers of its package write
 	// no map, field or package variable that outlives the call (a replay filter keyed by the per-registration tag
